@@ -2,6 +2,7 @@
 from .. import anchors as A
 from .. import shared as S
 from .. import builderrules as B
+from .. import positives as P
 from ..facts import Callee
 from ..shapes import traversals, root, SELF
 
@@ -94,3 +95,5 @@ def run(ctx, report):
         report.guard("C20.SAME", S.slot, ctx, report, "C20.SAME", facts, config)
         report.guard("C20.SAME", S.lockstep, ctx, report, "C20.SAME", facts, config)
         report.guard("C20.SAME", B.ids, ctx, report, "C20.SAME", facts, config)
+    P.check(ctx, report, "C20.TOTAL", ["panic_constructs"])
+    P.check(ctx, report, "C20.WALK", ["partial_traversals"])
